@@ -176,6 +176,39 @@ def choice_diff(req):
     evals += 1
     if not (res["outcome"] == "raise" and res["exc"] == "ValueError") and len(fails) < limit:
         fails.append({"history": "a 4th weight appended in place to a list used before", "expected": {"outcome": "raise", "exc": "ValueError"}, "observed": res})
+    # population elements are handed back as they are, whatever they are: never formatted, compared, hashed or used as an index
+    class Inert:
+        __slots__ = ()
+        __hash__ = None
+
+        def _no(self, *a, **k):
+            raise AssertionError("the population element was inspected")
+        __eq__ = __ne__ = __str__ = __repr__ = __format__ = __bool__ = __len__ = __iter__ = __index__ = __int__ = __float__ = __getitem__ = __mod__ = __rmod__ = _no
+    for popx in ([(), ("variant", 2), ("a",)], [None, {"k": 1}, [1, 2]], [("%s", "%d"), "100%", "{0}"], [Inert(), Inert(), Inert()], [2, 0, 1], [True, False, True], [0, 0, 0], [1, 0, 2],
+                 [b"x", 1.5, float("nan")]):
+        n = len(popx)
+        for wsx in ([1, 1, 1], [0, 1, 0], [1, 2, 3]):
+            for k in _boundary_us(list(itertools.accumulate(wsx))):
+                u = Fraction(k, TWO32)
+                exp = scheme.spec_choice(n, list(wsx), None, u)
+                forms = [("weights", (popx, list(wsx)), {}), ("cum_weights", (popx,), {"cum_weights": list(itertools.accumulate(wsx))})]
+                if len(set(wsx)) == 1:
+                    forms.append(("none", (popx,), {}))
+                for form, a, kw in forms:
+                    saved = b.deterministic_proba
+                    b.deterministic_proba = lambda s_, u=u: float(u)
+                    evals += 1
+                    try:
+                        got = b.deterministic_choice("unit", *a, **kw)
+                        okx = got is popx[exp["index"]]
+                        obs = "returned the element at index %s" % next((i for i, x in enumerate(popx) if x is got), "?")
+                    except BaseException as e:      # noqa
+                        okx, obs = False, "raised %s: %s" % (type(e).__name__, str(e)[:120])
+                    finally:
+                        b.deterministic_proba = saved
+                    if not okx and len(fails) < limit:
+                        fails.append({"population": [type(x).__name__ + ":" + (object.__repr__(x) if isinstance(x, Inert) else repr(x)) for x in popx], "weights": wsx, "form": form, "u": "%d/2^32" % k,
+                                      "expected": "the very element at index %d" % exp["index"], "observed": obs})
     return {"evaluations": evals, "distinct": len(distinct), "failures": fails,
             "bound": "n<=%d, integer weights 0..%d (all vectors), decimal pool %r for n in 2..3, grid points adjacent to every boundary + {0,1,2^31,2^32-1}" % (max_n, max_w, extra)}
 
@@ -319,6 +352,7 @@ LIFECYCLE_TEXTS = [
     'def e1 { salt: "x//2" splitters: uid return "A" weighted 1, "B" weighted 1, "C" weighted 1 }',
     'def e1 { salt: "a/*b*/c" splitters: uid return "A" weighted 1, "B" weighted 1, "C" weighted 1 }',
     'def e1 { salt: "a/*d*/c" splitters: uid return "A" weighted 1, "B" weighted 1, "C" weighted 1 }',
+    'def e1 { return "p" weighted 0 }',       # grammatical, takes no field, and every call raises: loading it must not run it
 ]
 
 
@@ -453,7 +487,9 @@ def trivia_diff(req):
     from pyab_experiment.utils.wraper_functions import parse_source
     rnd = random.Random(req.get("seed", 0))
     pool = req.get("pool", [" ", "\n", "\t \n", "/* x */", "/* a */ /* b */", "// c\n", "/* ' \" // * if def */", "/*\n*\n*/", "/**/", "/* * / */", "//\n", "/* a */\t/* b */ // c\n",
-                            "// a\x0c, \"Z\" weighted 9\n", "// a\u2028 b \u2029 c \x85 d \x1c e\n", "/* a\x0c b \u2028 */", "\r\n", "\x0b", "// \r x\n", "// path C:\\exp\\\n", "// \\\n", "/* 2*3 */", "/* a*b **/", "/** x **/", "/* \x00 */", "/*/ x */", "/*// x */", "/*/*/", "/*/ , \"Z\" weighted 9 /* */"])
+                            "// a\x0c, \"Z\" weighted 9\n", "// a\u2028 b \u2029 c \x85 d \x1c e\n", "/* a\x0c b \u2028 */", "\r\n", "\x0b", "// \r x\n", "// path C:\\exp\\\n", "// \\\n", "/* 2*3 */", "/* a*b **/", "/** x **/", "/* \x00 */", "/*/ x */", "/*// x */", "/*/*/", "/*/ , \"Z\" weighted 9 /* */",
+                            # comments whose text contains the words of keywords and two-word operators
+                            "// was: else if x in (1) not in y\n", "/* else if not in */", "// if\n", "// in\n", "// not in def return weighted salt splitters and or\n", "/* if */ /* in */"])
     fails, evals, limit = [], 0, req.get("limit", 3)
     sink = io.StringIO()
 
